@@ -82,13 +82,18 @@ def check_case(run, case):
         except OverflowError:
             run.violation(f'the queue keeps emitting pre-terminals beyond the {size} the language holds (it repeats pre-terminals and does not reach exhaustion)', case); return
         run.ev('POP', len(mon.pops)); run.ev('frontier_checks', mon.checked_frontier)
-        for kind, k, msg in mon.problems:
-            if kind in ('dup-in-queue', 'emitted-and-queued', 'orphan-in-queue', 'lost-child'):
-                run.violation(f'frontier invariant broken after pop {k}: {kind}: {msg}', case, observed=[list(p['key'][1]) for p in mon.pops[max(0, k - 4):k + 1]])
-                break
         emitted = Counter(p['key'] for p in mon.pops)
         expected = Counter({k: len(v) for k, v in index.items()})
-        if emitted != expected:
+        # the frontier invariant describes the Deadbeat-Dad queue from the inside; the property is about what is emitted.  A breach is reported as the
+        # (earlier, more precise) witness of a wrong emitted multiset; without such an effect it is only counted
+        fr = [(kind, k, msg) for kind, k, msg in mon.problems if kind in ('dup-in-queue', 'emitted-and-queued', 'orphan-in-queue', 'lost-child')]
+        if fr and emitted != expected:
+            kind, k, msg = fr[0]
+            run.violation(f'frontier invariant broken after pop {k}: {kind}: {msg} (emitted multiset: {sum((expected - emitted).values())} lost, {sum((emitted - expected).values())} repeated/foreign)',
+                          case, observed=[list(p['key'][1]) for p in mon.pops[max(0, k - 4):k + 1]])
+        elif fr:
+            run.ev('frontier_anomalies_without_observable_effect', len(fr))
+        if emitted != expected and not fr:
             lost = sorted((expected - emitted).items())[:3]
             dup = sorted((emitted - expected).items())[:3]
             run.violation(f'emitted pre-terminals differ from the language: {sum((expected - emitted).values())} lost, {sum((emitted - expected).values())} repeated/foreign',
